@@ -397,7 +397,7 @@ time_t handle_timeout(struct handler *handler, struct trace *trace) {
     concat_string(relative_path, offset_path, trace);
 
     bool is_history_path = get_metadata(head) & linq_meta_is_history;
-    size_t offset = is_history_path
+    size_t offset = is_history_path && ok(trace)
                         ? read_counter(get_string(get_view(offset_path)), trace)
                         : 0;
 
@@ -466,14 +466,16 @@ time_t handle_timeout(struct handler *handler, struct trace *trace) {
       concat_string(get_path(head) + project_root_end_offset, project_path,
                     trace);
 
-      if (ok(trace) && unlink(get_string(get_view(project_path))) < 0 &&
-          errno != ENOENT) {
-        throw_errno(trace);
+      if (ok(trace)) {
+        if (unlink(get_string(get_view(project_path))) < 0 &&
+            errno != ENOENT) {
+          throw_errno(trace);
+        }
+        create_parents(get_string(get_view(project_path)), trace);
+        TNEG(link(get_current_path(store_path),
+                  get_string(get_view(project_path))),
+             trace);
       }
-      create_parents(get_string(get_view(project_path)), trace);
-      TNEG(link(get_current_path(store_path),
-                get_string(get_view(project_path))),
-           trace);
       free_buffer(project_path);
     }
 
